@@ -224,3 +224,25 @@ Theorem C01_by_cell_degenerate_witness :
   exists r c m, wf_region r /\ mesh_by_cell r c = OK m /\ n m = [0%Z].
 Proof. exact by_cell_degenerate_witness. Qed.
 Print Assumptions C01_by_cell_degenerate_witness.
+
+(* transfer of C01_cell_contains to the observation: the OBSERVED index returned by point2index is in range
+   and its cell contains the probe point (tolerance form; sharp half-open form inside the region; the upper
+   face belongs to the last cell), and the observed `p in region` is the model's *)
+Theorem C01_accepted_point_in_cell : forall p1 p2 n_ tf_ p obs_in j,
+  check_C01 (CP2I true p1 p2 n_ tf_ p obs_in (Some j)) = true -> 0 <= tf_ -> (length p1 <= 10)%nat ->
+  exists m, build p1 p2 n_ tf_ = OK m /\ wf_mesh m /\ contains_pt (reg m) p = obs_in /\
+  length j = length (pmin (reg m)) /\
+  forall a, (a < length (pmin (reg m)))%nat ->
+    let lo := nth a (pmin (reg m)) 0 in let hi := nth a (pmax (reg m)) 0 in
+    let c := nth a (cell m) 0 in let x := nth a p 0 in let k := nth a j 0%Z in
+    let t := tau (tf (reg m)) (reg_atol (reg m)) x in
+    (0 <= k < nth a (n m) 1)%Z /\
+    lo + inject_Z k * c - t <= x /\ x <= lo + (inject_Z k + 1) * c + t /\
+    (lo <= x -> x < hi -> lo + inject_Z k * c <= x /\ x < lo + (inject_Z k + 1) * c) /\
+    (hi <= x -> k = (nth a (n m) 1 - 1)%Z).
+Proof. exact accepted_point_in_cell. Qed.
+Print Assumptions C01_accepted_point_in_cell.
+Example C01_accepted_point_instance :
+  check_C01 (CP2I true [0; 0] [4; 3] [4; 2]%Z (1 # 1000000000000) [7 # 2; 3 # 2] true (Some [3; 1]%Z)) = true.
+Proof. exact accepted_point_instance. Qed.
+Print Assumptions C01_accepted_point_instance.
